@@ -1065,4 +1065,4 @@ CLAUSES += [
 
 # coverage-guided second driver (atheris / libFuzzer through Hypothesis' fuzz_one_input) for the core clauses: (clause, quick runs, thorough runs)
 from harness.covfuzz import cov_clauses  # noqa: E402
-CLAUSES += cov_clauses('C12', CLAUSES, [('lang_words', 1000, 20000), ('minimal', 1000, 20000)])
+CLAUSES += cov_clauses('C12', CLAUSES, [('lang_words', 1000, 6666), ('minimal', 1000, 6666)])
